@@ -58,6 +58,17 @@ WORKLOADS = [
       lambda v: mcquad(v.fcn, lambda x: -(x * x).sum(), torch.zeros(1, dtype=DT), fparams=v.params, pparams=(),
                        method="mhcustom", custom_step=lambda x, *p: x * -0.9 + 0.1, nsamples=12, nburnout=3),
       rtol=1e-9, atol=1e-11),
+    # tuple-valued integrand (separate code path of quad: the object parameters must reach the autograd function too;
+    # seeded defect C09/2)
+    W("quad_tuple", lambda x, a, b: (torch.exp(-a * x) * b, a * x ** 2 + torch.sin(b * x)),
+      lambda v: torch.cat(quad(v.fcn, 0.2, torch.tensor(1.3, dtype=DT), params=v.params, n=12)), rtol=1e-9, atol=1e-11),
+    # log-density with its own explicit parameter next to an integrand that may carry object parameters (the packed
+    # parameter list is split by position; seeded defect C09/3)
+    W("mcquad_pparams", lambda x, a, b: a * x * x + b * x,
+      lambda v: (torch.manual_seed(11), mcquad(v.fcn, lambda x, w: -(x * x).sum() * w, torch.zeros(1, dtype=DT), fparams=v.params,
+                                               pparams=(torch.tensor(1.3, dtype=DT),), method="mh", step_size=0.7, nsamples=40,
+                                               nburnout=5))[1],
+      rtol=1e-9, atol=1e-11),
     W("jac_mv", lambda x, a, b: a * x ** 3 + b * torch.sin(x),
       lambda v: jac(v.fcn, params=(_x0(), *v.params), idxs=0).mv(torch.tensor([1.0, -2.0, 0.5], dtype=DT)),
       rtol=1e-10, atol=1e-12),
